@@ -3,7 +3,7 @@ import re
 
 from plint import guards
 from plint.flow import Flow
-from plint.ir import calls, strip_casts, cv, line, show, root_var, walk, ap
+from plint.ir import calls, strip_casts, cv, line, show, root_var, walk, ap, true_edge_guards
 from plint.units import AnalysisBroken
 
 
@@ -373,25 +373,11 @@ def run(prog, rep):
                     return "last"
             return None
 
-        def reachable_without(edge):
-            seen, work = set(), [ps.entry]
-            while work:
-                x = work.pop()
-                if x in seen:
-                    continue
-                seen.add(x)
-                for (to, on) in ps.blocks[x].succs:
-                    if (x, to) != edge:
-                        work.append(to)
-            return seen
         have = {}
-        for blk in ps.blocks.values():
-            c_ = blk.cond
-            gk = guard_kind(c_) if c_ is not None else None
-            if gk:
-                tt = [to for (to, on) in blk.succs if on == "true"]
-                if tt and hb.id not in reachable_without((blk.id, tt[0])):
-                    have[gk] = line(c_)
+        for gk in ("first", "last"):
+            hits = true_edge_guards(ps, hb.id, lambda x, gk=gk: guard_kind(x) == gk)
+            if hits:
+                have[gk] = line(hits[0])
         for gk, what in (("first", "first byte is '['"), ("last", "last byte is ']'")):
             rep.ob("C16.6", ps, "header:" + gk, gk in have, "the header pattern is applied only when the line's %s (line %s)" % (what, have.get(gk)) if gk in have else
                    "line %d: the header pattern is applied without testing that the line's %s: lines such as `[x]y = v` or `[sec] ; note` open a section and swallow the keys that follow" % (line(hc), what), hc)
@@ -429,6 +415,9 @@ SELFTEST = [
          new="\t\t} else if (sscanf (dst_line, \"%[^=] = %[^;#]\", key, value) == 2 ||\n\t\t\t   sscanf (dst_line, \"%[^=] = \\\"%[^\\\"]\\\"\", key, value) == 2 ||\n\t\t\t   sscanf (dst_line, \"%[^=] = '%[^\\']'\", key, value) == 2) {"),
     dict(id="plain-pattern-hash-only", file="src/pinifile.c", expect="C16.6",
          old="%[^=] = %[^;#]", new="%[^=] = %[^#]"),
+    dict(id="header-guard-likely-wrapped-neutral", file="src/pinifile.c", expect=None,
+         old="\t\tif (dst_line[0] == '[' && dst_line[strlen (dst_line) - 1] == ']' &&\n\t\t    sscanf (dst_line, \"[%[^]]\", key) == 1) {",
+         new="\t\tif (P_UNLIKELY (dst_line[0] == '[' && dst_line[strlen (dst_line) - 1] == ']' &&\n\t\t    sscanf (dst_line, \"[%[^]]\", key) == 1)) {"),
     dict(id="header-guard-nested-neutral", file="src/pinifile.c", expect=None,
          old="\t\tif (dst_line[0] == '[' && dst_line[strlen (dst_line) - 1] == ']' &&\n\t\t    sscanf (dst_line, \"[%[^]]\", key) == 1) {",
          new="\t\tif (dst_line[strlen (dst_line) - 1] == ']' && dst_line[0] == '[' &&\n\t\t    sscanf (dst_line, \"[%[^]]\", key) == 1) {"),
